@@ -100,6 +100,21 @@ def _apply(M, op, t):
         M = M.copy()
     elif k == "ctor":
         M = cls_of(t)(M)
+    elif k == "round":
+        M = round(M, op[1])
+    elif k == "subs":
+        M = M.subs({})
+    elif k == "neg":
+        M = -M
+    elif k == "set_mapping":
+        # a user enumeration of the current variables (a permutation of 0..n-1), through either setter
+        labs = list(M.mapping)
+        n = len(labs)
+        perm = {l: (i + op[1]) % n if n else 0 for i, l in enumerate(labs)}
+        if op[2]:
+            M.set_reverse_mapping({v: l for l, v in perm.items()})
+        else:
+            M.set_mapping(perm)
     elif k == "con":
         args = [_operand(a) if isinstance(a, tuple) and a and a[0] in ("dict", "model") else a for a in op[2]]
         r = getattr(M, "add_constraint_" + op[1])(*args, **op[3])
@@ -800,6 +815,91 @@ def _gen_anc_products(ctx):
             if prod[0] == "ipow" and (c1[1] not in ("eq_zero",) or t == "PCSO"):
                 c1 = ("con", "eq_zero", [("dict", {(labels[0],): 1, (labels[1],): -1})], {"lam": 1})   # keep it small
             yield {"type": t, "ops": pre + [c1] + mid + [prod, c2]}
+
+
+def _gen_anc_derived(ctx):
+    rng = ctx.rng("c14.a2")
+    for t in ("PCBO", "PCSO"):
+        labels = LABELS[:3]
+        con = ("con", "le_zero", [("dict", {('a',): 3, ('b',): 2, (): -4})], {"lam": 1, "log_trick": True})
+        for d in (("round", 3), ("subs",), ("neg",), ("copy",), ("ctor",)):
+            yield {"type": t, "ops": [con, d, con]}
+        for _ in range(ctx.pick(120, 2500)):
+            d = rng.choice([("round", rng.choice([None, 0, 2, 5])), ("subs",), ("neg",), ("copy",), ("ctor",)])
+            if d == ("round", None):
+                d = ("round", 4)
+            mid = _gen_ops(rng, t, rng.randint(0, 2), False, True, False, 0.3) if rng.random() < 0.5 else []
+            yield {"type": t, "ops": [_gen_con(rng, t, labels)] + mid + [d, _gen_con(rng, t, labels)]}
+
+
+@clause("C14.constraint_ancilla_names_derived_models", "C14", gen=_gen_anc_derived, nontrivial=_two_cons)
+def check_anc_names_derived(case):
+    """Same contract as C14.constraint_ancilla_names where, between two constraints, the model is replaced by a model
+    derived from it: round(M, n), M.subs({}), -M, M.copy(), type(M)(M). The derived model carries the ancillas of the
+    first constraint, so the second must not reuse their names. Non-trivial: two constraints with lam != 0."""
+    return _check_anc(case)
+
+
+def _gen_user_mapping(ctx):
+    rng = ctx.rng("c14.um")
+    for t in LABELLED:
+        yield {"type": t, "ops": [("set", ('a',), 1), ("set", ('b',), 2), ("set_mapping", 1, False), ("set", ('c',), 5)]}
+        yield {"type": t, "ops": [("set", ('a',), 1), ("set", ('b',), 2), ("set_mapping", 0, True), ("set", ('c', 'a'), 5)]}
+        for _ in range(ctx.pick(150, 3000)):
+            pre = _gen_ops(rng, t, rng.randint(1, 3), False, False, False, 0.0)
+            post = _gen_ops(rng, t, rng.randint(1, 3), False, False, False, 0.0)
+            yield {"type": t, "ops": pre + [("set_mapping", rng.randint(0, 3), rng.random() < 0.5)] + post}
+
+
+@clause("C14.mapping_bijection_after_user_mapping", "C14", gen=_gen_user_mapping, nontrivial=_has_edit)
+def check_bijection_user_mapping(case):
+    """C14.mapping_bijection for histories in which the user replaces the enumeration of the current variables by a
+    permutation of 0..n-1 (set_mapping or set_reverse_mapping) and then goes on editing: variables added afterwards
+    get labels that are new, and mapping / reverse_mapping stay mutually inverse bijections onto 0..n-1."""
+    return check_bijection(case)
+
+
+def _gen_predeclared(ctx):
+    rng = ctx.rng("c14.pre")
+    for t in LABELLED:
+        for labs in (['a', 'b'], ['b', 'a', 0], [0, 1, 2], ['a']):
+            for rot in range(len(labs)):
+                for rev in (False, True):
+                    yield {"type": t, "labels": labs, "rot": rot, "rev": rev, "extra": ['zz']}
+        for _ in range(ctx.pick(40, 800)):
+            labs = rng.sample(LABELS, rng.randint(1, 4))
+            yield {"type": t, "labels": labs, "rot": rng.randint(0, 3), "rev": rng.random() < 0.5,
+                   "extra": rng.sample(['zz', 'yy', 9], rng.randint(1, 2))}
+
+
+@clause("C14.mapping_bijection_predeclared_mapping", "C14", gen=_gen_predeclared, nontrivial=lambda c: len(c["labels"]) >= 2)
+def check_predeclared(case):
+    """The documented use of set_mapping / set_reverse_mapping "to ensure consistency in mappings": the enumeration
+    of labels L (a permutation of 0..|L|-1) is declared on an empty model, then terms over exactly L are added, then
+    terms on further labels. At the end mapping and reverse_mapping are mutually inverse bijections between the
+    reported variables and 0..n-1, and the declared labels kept their declared numbers. Non-trivial: |L| >= 2."""
+    M = cls_of(case["type"])()
+    labs = list(case["labels"])
+    n = len(labs)
+    decl = {l: (i + case["rot"]) % n for i, l in enumerate(labs)}
+    if case["rev"]:
+        M.set_reverse_mapping({v: l for l, v in decl.items()})
+    else:
+        M.set_mapping(dict(decl))
+    for i, l in enumerate(labs):
+        M[(l,)] += i + 1
+    for j, l in enumerate(case["extra"]):
+        M[(l, labs[0])] += 2 + j
+    mp, rm, vs = M.mapping, M.reverse_mapping, set(M.variables)
+    if set(mp) != vs:
+        return Fail("mapping %r does not enumerate exactly the variables %r" % (mp, sorted(vs, key=repr)), key="predeclared-labels")
+    if sorted(mp.values()) != list(range(len(vs))):
+        return Fail("mapping %r is not a bijection onto 0..%d" % (mp, len(vs) - 1), key="predeclared-not-bijection")
+    if {v: k for k, v in mp.items()} != rm:
+        return Fail("reverse_mapping %r is not the inverse of mapping %r" % (rm, mp), key="predeclared-inverse")
+    if any(mp[l] != decl[l] for l in labs):
+        return Fail("declared numbers %r changed to %r" % (decl, {l: mp[l] for l in labs}), key="predeclared-renumbered")
+    return None
 
 
 @clause("C14.constraint_ancilla_names_after_product", "C14", gen=_gen_anc_products,
